@@ -104,22 +104,38 @@ func (m *Markdown) Load(filename string) (*Document, error) {
 // Returns the parsed front matter map and the remaining markdown body.
 func splitFrontMatter(raw []byte) (map[string]any, []byte) {
 	content := string(raw)
-	if !strings.HasPrefix(content, "---") {
+	// The opening delimiter is the first line, the closing one the next line
+	// that consists of --- alone: a --- inside a value or further down in the
+	// text is not a delimiter.
+	first, rest, ok := strings.Cut(content, "\n")
+	if !ok || strings.TrimRight(first, " \t\r") != "---" {
 		return nil, raw
 	}
-
-	parts := strings.SplitN(content, "---", 3)
-	if len(parts) < 3 {
+	end, bodyStart := -1, -1
+	for pos := 0; pos <= len(rest); {
+		nl := strings.IndexByte(rest[pos:], '\n')
+		line, next := rest[pos:], len(rest)+1
+		if nl >= 0 {
+			line, next = rest[pos:pos+nl], pos+nl+1
+		}
+		if strings.TrimRight(line, " \t\r") == "---" {
+			end, bodyStart = pos, min(next, len(rest))
+			break
+		}
+		pos = next
+	}
+	if end < 0 {
 		return nil, raw
 	}
 
 	var fm map[string]any
-	if err := yaml.Unmarshal([]byte(parts[1]), &fm); err != nil {
+	if err := yaml.Unmarshal([]byte(rest[:end]), &fm); err != nil {
 		return nil, raw
 	}
 
-	body := strings.TrimSpace(parts[2])
-	return fm, []byte(body)
+	// The body is everything after the closing line, as it is: the indentation
+	// of its first line is part of the document (an indented code block).
+	return fm, []byte(rest[bodyStart:])
 }
 
 // Render writes the rendered HTML of the parsed document to w.
